@@ -107,6 +107,8 @@ typedef struct {
   long nread,nseek,ntell;
 } memsrc;
 
+/* errno as a real fread-based callback may leave it after a SUCCESSFUL read (e.g. an interrupted and retried read(2)): 0 = cleared */
+static int ms_errno_noise=0;
 static int ms_fault(memsrc *m,int kindclass){
   /* kindclass: 0 read, 1 seek, 2 tell */
   long k=m->ncalls++;
@@ -128,7 +130,7 @@ static size_t ms_read(void *ptr,size_t size,size_t nmemb,void *src){
   if(f==3&&want>1)want=1;
   if(want<0)want=0;
   memcpy(ptr,m->data+m->pos,want); m->pos+=want;
-  errno=0;
+  errno=(want>0)?ms_errno_noise:0;
   return want;
 }
 static int ms_seek(void *src,ogg_int64_t off,int whence){
